@@ -103,7 +103,7 @@ PROPS["C18"] = {
             "missing instruction addresses, non-dense and out-of-order instruction indices, functions that went through merge(), function addresses unrelated to their instruction addresses); for every location of every function forward() and backward() are compared with the independent "
             "location graph, the converse relation is checked pairwise, the forward closure from the entry is compared with graph reachability, "
             "each location is round-tripped through ProgramLocation/FunctionLocation on the program and on a clone (apply, migrate), and "
-            "from_address is queried for every address in the range used. Distinct = (block count, edge count, has empty block, has self-loop).",
+            "from_address is queried for every address in the range used. Distinct = (block count, edge count, has empty block, has self-loop). One function in four carries phi nodes (also in blocks without instructions); one case in three re-assembles a second program from clones of the first program's functions (which arrive with an index) behind an optional fresh function and checks that every function is stored under the index it reports before running the same location checks.",
     "level_text": "All locations and all addresses of each generated program are enumerated completely; programs themselves are sampled.",
     "level_note": "trusts harness/src/locgraph.rs (built from blocks(), instructions(), edges() only)",
     "assumptions": ["programs come from the harness IL generator (harness/src/ilgen.rs)"],
@@ -124,7 +124,7 @@ PROPS["C06"] = {
             "alignment relative to the 64-byte translation window, straight-line runs longer than a window, function entry in the middle of the program, the image as one or as two adjacent memory sections; 3-4 initial states "
             "per program. Structure per function: address and entry block, no edge naming a missing block, each statically reachable instruction present with exactly the IL "
             "operations of its own lifting (neither missing nor duplicated). Non-trivial = an execution of >= 2 distinct instructions compared to its end; distinct = "
-            "(translator, end kind, loop, window-crossing, mid-block target, manual/indirect/overlap features).",
+            "(translator, end kind, loop, window-crossing, mid-block target, manual/indirect/overlap features). Direct calls (x86 call rel32, MIPS jal/bal with delay slot, PPC bl, A64 bl) stand where returns stand in half of the cases: a Branch operation that ends the run wherever in a block or 64-byte window it happens to be.",
     "level_text": "Sampled (program, initial state) pairs; the sequential oracle uses falcon's own single-instruction lifting (judged separately by C01-C03), so this check isolates block discovery, sharing, edges, windows and merging.",
     "level_note": "a Branch operation hands control to its target (executor semantics); execution stays inside the function only through a requested manual edge; runs are cut at 1500 IL operations on both sides; trusts refinterp.rs/refeval.rs",
     "assumptions": [
@@ -144,7 +144,7 @@ PROPS["C07"] = {
             "self-loops) from corner-biased initial states with occasionally undefined scalars and an unmapped byte, both endiannesses, memory "
             "with and without backing; one in ten programs has guards that are deliberately not exhaustive. Lock-step for <=200 steps. "
             "Distinct = (how the run ended: terminal/undefined scalar/unmapped/div by zero/intrinsic/no guard/branch nowhere/lifted/step cap, "
-            "endianness, backing, cross-function branch).",
+            "endianness, backing, cross-function branch). Intrinsics are generated with undeclared, empty and non-empty write sets; one backing memory in three has the byte order opposite to the paged memory on top of it.",
     "level_text": "Lock-step comparison with a reference interpreter transcribed from the statement, on sampled programs and states; every step "
                   "of every run is an oracle comparison of the complete observable state.",
     "level_note": "trusts harness/src/refinterp.rs and refeval.rs; programs whose guards are not mutually exclusive are not judged once two guards hold at the same time",
@@ -180,7 +180,7 @@ PROPS["C15"] = {
             "ones, set_entry/set_exit incl. invalid, append, insert, merge) on two live graphs with all structural invariants re-checked after every "
             "step (success or failure), and across every successful merge() in a history (blocks with mixed conditional/unconditional out-edges included) the set of instruction sequences executable from the entry, guards ignored, up to 6 instructions, must be unchanged; merge() on random functions (<=8 blocks, loops, self-loops, empty blocks, unreachable blocks) with executed-"
             "operation traces and final states compared before/after from 4 states; a.append(b) compared with running a then b; "
-            "BlockTranslationResult::blockify on lifted amd64 blocks. Distinct = (scenario, size buckets, number of blocks merged).",
+            "BlockTranslationResult::blockify on lifted amd64 blocks. Distinct = (scenario, size buckets, number of blocks merged). One case in ten is a chain: 2-4 generated graphs, a third of them with an exit that has successors of its own (loop tail, self-loop), joined by repeated append() and - as the instruction graphs of one BlockTranslationResult - by blockify(); the executable instruction sequences of both results (guards ignored, 7 instructions deep) must equal the language of 'run g0, then g1, ...' written down over (graph, block) pairs without the code under test.",
     "level_text": "Sampled operation histories with a complete invariant check after each step, and sampled functions/states for the meaning-preservation half.",
     "level_note": "trusts harness/src/refinterp.rs for the execution comparison; append is judged only when both exits have no outgoing edges (as lifters produce)",
     "assumptions": ["a.append(b) is compared with 'run a then b' only when a's run ends at a's exit block and both exits have no successors"],
@@ -372,7 +372,7 @@ PROPS["C19"] = {
             "value 0, two symbols at one address), PLT relocations, PT_INTERP, SONAME, user function entries; bases 0, page-aligned, unaligned and high. Link cases: x86 and "
             "MIPS (both endiannesses) main program + 1-3 shared objects with a random DT_NEEDED graph; R_386_32/GLOB_DAT/JMP_SLOT/RELATIVE, MIPS local and global GOT entries "
             "and R_MIPS_REL32, referring to symbols of the object itself, the main program and its dependencies; relocated words anywhere in the data segment's file part, its last word included. Non-trivial = at least one mapped segment / one symbol-relocated word; "
-            "distinct = (kind, architecture, object type, segment count, features).",
+            "distinct = (kind, architecture, object type, segment count, features). Call order is varied: half of the single-object cases ask for entries and memory before add_user_function, every link case adds user functions after its first function_entries() query and asks again (the answer must be the old one plus exactly those).",
     "level_text": "Sampled ELF descriptions; the expected answers are known by construction, the file bytes come from a writer that shares no code with the parser (goblin) or the loader.",
     "level_note": "trusts harness/src/elfgen.rs (self-tests against its own reader); library bases are read from ElfLinker::loaded() (the placement policy is not part of the property); symbol names are unique across linked objects",
     "assumptions": [
@@ -393,7 +393,7 @@ PROPS["C20"] = {
             "register-sweep corpus; no register name both preserved and trashed (in the published sets and through is_preserved/is_trashed, which must agree with the sets); stack pointer preserved; stack slots of one machine word at "
             "consecutive offsets; argument order / return register / return-address location per psABI; stack_pointer() is the scalar written by a "
             "push/addiu $sp/stwu r1/sub sp instruction serialised in arch.endian() order; the MIPS unaligned-word idioms lwl/lwr and swl/swr at all four alignments read and write the word in arch.endian() byte order; load/store address width = word_size(); loader::Elf maps "
-            "(e_machine, EI_DATA) to the same descriptor. Distinct = (architecture, role, register) facts confirmed.",
+            "(e_machine, EI_DATA) to the same descriptor. Distinct = (architecture, role, register) facts confirmed. Each architecture is swept three times: in a process that lifted nothing else, after every other architecture lifted something (table order) and likewise in reverse order; inside each case the sweep is repeated behind one more round of the others and must observe the same scalars (state cached across translators shows as a difference).",
     "level_text": "A finite configuration space, enumerated completely (exhaustive: true); the observed side depends on the corpus, which sweeps every register number of every register class the conventions mention.",
     "level_note": "trusts the psABI table in harness/src/c20.rs (argument registers, return register, return-address location for cdecl, SysV amd64, o32, PPC SVR4, AAPCS64) and harness/src/elfgen.rs for the loader probe",
     "assumptions": ["psABI facts transcribed by hand into harness/src/c20.rs"],
